@@ -129,4 +129,100 @@ theorem ringBell_no_crash (b : Bot) (bell : Nat) (e : String) : Out.crash e ∉ 
   · split <;> simp
   · simp
 
+/-- The kinds of output a row boundary can produce: a call, a reported exception, an expectation. -/
+def Out.snrKind : Out → Bool
+  | .call _ => true
+  | .crash _ => true
+  | .rExpect _ _ _ _ => true
+  | _ => false
+
+theorem makeCalls_kind (b : Bot) (cs : List String) : ∀ o ∈ b.makeCalls cs, o.snrKind = true := by
+  intro o ho
+  unfold Bot.makeCalls at ho
+  split at ho
+  · simp only [List.mem_map] at ho; obtain ⟨c, _, rfl⟩ := ho; rfl
+  · simp at ho
+
+theorem generateNextRow_kind (b : Bot) : ∀ o ∈ (b.generateNextRow).2, o.snrKind = true := by
+  intro o ho
+  unfold Bot.generateNextRow at ho
+  split at ho
+  · simp at ho
+  · split at ho
+    · simp at ho
+    · split at ho <;> simp at ho <;> subst ho <;> rfl
+
+theorem expectAll_snrKind (b : Bot) : ∀ o ∈ b.expectAll, o.snrKind = true := by
+  intro o ho
+  unfold Bot.expectAll at ho
+  simp only [List.mem_map] at ho
+  obtain ⟨p, _, rfl⟩ := ho
+  rfl
+
+theorem snrFinish_kinds (b : Bot) (o4 : List Out) (h : ∀ o ∈ o4, o.snrKind = true) :
+    ∀ o ∈ (Bot.snrFinish b o4).2, o.snrKind = true := by
+  intro o ho
+  unfold Bot.snrFinish at ho
+  split at ho
+  · exact h o ho
+  · have hg := generateNextRow_kind b
+    rcases hq : b.generateNextRow with ⟨b3, o9⟩
+    rw [hq] at ho hg
+    simp only [] at ho hg
+    split at ho
+    · simp only [List.mem_append] at ho
+      rcases ho with h1 | h1
+      · exact h o h1
+      · exact hg o h1
+    · simp only [List.mem_append] at ho
+      rcases ho with (h1 | h1) | h1
+      · exact h o h1
+      · exact hg o h1
+      · exact expectAll_snrKind b3 o h1
+
+/-- Everything `start_next_row` outputs is a call, a reported exception or an expectation. -/
+theorem startNextRow_kinds (b : Bot) (f : Bool) : ∀ o ∈ (b.startNextRow f).2, o.snrKind = true := by
+  intro o ho
+  unfold Bot.startNextRow at ho
+  split at ho
+  · simp at ho; subst ho; rfl
+  · simp only [] at ho
+    refine snrFinish_kinds _ _ ?_ o ho
+    intro o' ho'
+    split at ho'
+    · exact makeCalls_kind _ _ o' ho'
+    · simp at ho'
+
+/-- The kinds of output a turn can produce: additionally the strike. -/
+theorem tickEnd_kinds (b : Bot) (bell : Nat) (uc : Bool) :
+    ∀ o ∈ (b.tickEnd bell uc).2, o.snrKind = true ∨ o.isRing = true := by
+  intro o ho
+  have h1 : ∀ o ∈ (if uc then [] else b.ringBell bell), o.isRing = true := by
+    intro o ho
+    split at ho
+    · simp at ho
+    · unfold Bot.ringBell at ho
+      split at ho
+      · split at ho
+        · simp at ho; subst ho; rfl
+        · simp at ho
+      · simp at ho
+  have h2 : ∀ o ∈ (if b.place == 0 then b.makeCalls b.calls else []), o.snrKind = true := by
+    intro o ho
+    split at ho
+    · exact makeCalls_kind _ _ o ho
+    · simp at ho
+  unfold Bot.tickEnd at ho
+  simp only [] at ho
+  split at ho
+  · simp only [List.mem_append] at ho
+    rcases ho with (h | h) | h
+    · right; exact h1 o h
+    · left; exact h2 o h
+    · left; exact startNextRow_kinds _ false o h
+  · simp only [List.mem_append] at ho
+    rcases ho with h | h
+    · right; exact h1 o h
+    · left; exact h2 o h
+
 end Wheatley
